@@ -7,6 +7,7 @@ import ReqVerif.Model.GraphCheck
 import ReqVerif.Model.SourceWalk
 import ReqVerif.Model.RequiresPython
 import ReqVerif.Model.Filename
+import ReqVerif.Model.Metadata
 /-!
 rvdriver: line protocol between the Python harness and the executable models.
 One JSON object per input line (`{"op": ..., ...}`), one JSON value per output line.
@@ -219,6 +220,15 @@ def opWheelName (j : Json) : Json :=
       ("build", match w.build with | some b => Json.str (str b) | none => Json.null),
       ("pys", jsonStrs (w.pys.map str)), ("abi", str w.abi), ("plats", jsonStrs (w.plats.map str))]
 
+/-! ### METADATA reader (C11) -/
+
+def opMetadata (j : Json) : Json :=
+  match MD.parseFlat ((jStrs j "lines").map String.toList) with
+  | none => Json.mkObj [("error", "MetadataError")]
+  | some a => Json.mkObj [("name", match a.name with | some n => Json.str (str n) | none => Json.null),
+      ("version", match a.version with | some v => Json.str (str v) | none => Json.null),
+      ("reqs", jsonStrs (a.reqs.map str))]
+
 def dispatch (op : String) (j : Json) : Json :=
   match op with
   | "merge" => opMerge j
@@ -229,6 +239,7 @@ def dispatch (op : String) (j : Json) : Json :=
   | "tags" => opTags j
   | "history" => opHistory j
   | "walk" => opWalk j
+  | "metadata" => opMetadata j
   | "requires-python" => opRequiresPython j
   | "wheel-name" => opWheelName j
   | "compile" => opCompile j
